@@ -97,7 +97,7 @@ def run_c01(ctx):
     wc = random_cases(ctx, 150 if q else 2000, ["wide_leaf"], wide=True, max_kids=3, depth=2, values=(-3, 40000))
     for c in wc: c["wide"] = True
     cases += wc
-    cases = chain_preludes(cases) + edit_twins(ctx) + narrow_min_cases(ctx) + shared_depth_cases(ctx)
+    cases = chain_preludes(cases) + edit_twins(ctx) + narrow_min_cases(ctx) + shared_depth_cases(ctx) + magnitude_cases(ctx)
     ctx.pmap(drivers.drv_to_poly, _stamp(cases, "drv_to_poly"))
     if not q: repo_test_events(ctx, ['to_poly'])
     ctx.validate()
@@ -116,6 +116,26 @@ def narrow_min_cases(ctx):
             out.append({"recipe": r, "src": "handmade", "form": 3})          # ... as numpy.int64
     ctx.region("leaf_at_narrow_type_minimum")
     return out
+
+def magnitude_cases(ctx):
+    """thresholds and big-M coefficients that are larger than any single leaf's range (sums of mid-sized integer leaves, a node over
+    130 boolean leaves) and magnitudes beyond 2^24 (which a single precision float cannot hold); judged on critical points"""
+    a = LEAF("a")
+    P, Q, R_, S_ = LEAF("P", 0, 100), LEAF("Q", 0, 100), LEAF("R", -100, 27), LEAF("S", 0, 120)
+    T, U = LEAF("T", 0, 33554433), LEAF("U", -16777218, 5)
+    many = [LEAF("x%03d" % i) for i in range(130)]
+    rs = [_R("All", _R("AtMost", P, Q, v=60, id="B"), a, id="A"),
+          _R("Any", _R("AtLeast", P, Q, S_, v=150, s=1, id="B"), a, id="A"),
+          _R("All", _R("AtLeast", R_, P, v=-90, s=-1, id="B"), _R("AtLeast", P, Q, v=128, s=1, id="C"), id="A"),
+          _R("Imply", _R("AtMost", P, S_, v=127, id="B"), _R("AtLeast", Q, R_, v=101, s=1, id="C"), id="A"),
+          _R("AtLeast", P, Q, S_, v=300, s=1, id="A"), _R("AtMost", P, Q, R_, v=-1, id="A"),
+          _R("All", *many, id="A"), _R("Any", _R("AtLeast", *many, v=128, s=1, id="B"), a, id="A"),
+          _R("All", _R("AtLeast", T, U, v=16777217, s=1, id="B"), _R("AtMost", T, v=25000003, id="C"), id="A"),
+          _R("Any", _R("AtLeast", T, a, v=33554433, s=1, id="B"), _R("AtLeast", U, v=-16777217, s=1, id="C"), id="A"),
+          _R("AtLeast", T, U, v=16777217, s=1, id="A"), _R("AtMost", T, U, v=16777219, id="A"),
+          _R("Imply", _R("AtLeast", T, v=25000003, s=1, id="B"), _R("AtLeast", U, v=-16777215, s=1, id="C"), id="A")]
+    ctx.region("magnitudes_beyond_leaf_ranges", len(rs))
+    return [{"recipe": r, "src": "handmade", "wide": True} for r in rs]
 
 def shared_depth_cases(ctx):
     """one sub-proposition OBJECT used at two different depths (directly below a node and again below a later sibling), in both id
@@ -985,7 +1005,7 @@ RULES = lambda: [_R("Any", LEAF("p"), LEAF("q"), id="P1"), _cc("ccAny", LEAF("p"
                  _R("Any", LEAF("a"), LEAF("q"), id="X"), _R("AtMost", LEAF("p"), LEAF("q"), LEAF("r"), v=1)]
 
 ALL_OPS = ["evaluate", "evaluate_all", "assume", "reduce", "negate", "errors", "to_json", "to_b64", "to_poly", "flatten", "flags",
-           "cfg_poly", "default_prios", "leafs", "select", "add", "reload_b64"]
+           "cfg_poly", "default_prios", "leafs", "select", "add", "reload_b64", "solve", "builtin", "select_raise"]
 
 def _fn_dict(d):
     return {k: list(v) for k, v in d.items()} if isinstance(d, dict) else {}
